@@ -113,6 +113,40 @@ struct ArbTracker {
     }
 };
 
+// ---------------------------------------------------------------- reference session table for the documented (Darwin) frame flow
+// Fed from the received frames and the virtual clock only; never from the implementation's table.  Used by C11 (is the session
+// known under another sequence number), C12 (is there an incomplete session), C14 (the tick emptied the table), C16 (passive equality).
+struct FlowTable {
+    struct E { uint16_t seq; int complete; /* 0 no, 1 yes, 2 unknown */ uint64_t last_s; };
+    std::map<std::pair<Mac, uint16_t>, E> m;
+    uint64_t traffic_s = 0;
+    bool armed = false;
+    void expire(uint64_t now_s) { for (auto it = m.begin(); it != m.end();) if (now_s > it->second.last_s + 60) it = m.erase(it); else ++it; }
+    // the tick: 30 s inactivity drop first, then the 60 s per-session expiry
+    void tick(uint64_t now_s) { if (armed && now_s >= traffic_s + 30) { m.clear(); armed = false; } expire(now_s); }
+    // one received frame, in the order of the documented flow; ack: 0 no, 1 yes, 2 open
+    void frame(const Delivery &d, const Mac &own, int mapping_before, int mapping_after) {
+        uint8_t op = d.buf[OFF_OP];
+        uint64_t now_s = d.t / 1000;
+        if (op == W_DISCOVER) {
+            auto key = std::make_pair(mac_at(d.buf + OFF_RSRC), be16(d.buf + 32));
+            size_t count = be16(d.buf + 34), fits = d.len >= 36 ? (d.len - 36) / 6 : 0, scan = std::min(count, fits);
+            int ack = count == 0 ? 2 : 0;
+            for (size_t i = 0; i < scan; i++) if (mac_at(d.buf + 36 + 6 * i) == own) ack = 1;
+            if (ack == 0 && count > fits) ack = 2;
+            auto it = m.find(key);
+            if (it != m.end()) { it->second.seq = be16(d.buf + OFF_SEQ); it->second.last_s = now_s; if (ack == 1) it->second.complete = 1; else if (ack == 2 && it->second.complete == 0) it->second.complete = 2; }
+            else if (m.size() < 16) m[key] = E{be16(d.buf + OFF_SEQ), ack, now_s};
+        } else if (op == W_RESET) m.clear();
+        if (mapping_before != 0 && mapping_after == 0) m.clear(); // the flow clears the table when the mapping session ends
+        traffic_s = now_s; armed = true;                           // every frame re-arms the inactivity deadline
+        tick(now_s);                                               // the tick that follows every frame
+    }
+    bool known_other_seq(const Mac &src, uint16_t gen, uint16_t xid) const { auto it = m.find({src, gen}); return it != m.end() && it->second.seq != xid; }
+    int incomplete_certain() const { int n = 0; for (auto &kv : m) if (kv.second.complete == 0) n++; return n; }
+    int incomplete_possible() const { int n = 0; for (auto &kv : m) if (kv.second.complete != 1) n++; return n; }
+};
+
 // ---------------------------------------------------------------- C01: memory safety -- the sanitizers are the oracle; ledger adds bad-free
 struct MonC01 : Monitor {
     const char *prop() const override { return "C01"; }
@@ -669,11 +703,14 @@ struct MonC10 : Monitor {
 
 // ---------------------------------------------------------------- C11: session-event classifier
 struct MonC11 : Monitor {
+    std::map<int, FlowTable> ft;
     const char *prop() const override { return "C11"; }
+    void on_tick(World &, TickRec &t) override { ft[t.node].tick(t.t / 1000); }
     void on_delivery(World &w, Delivery &d) override {
         if (!d.ran || d.after.last_sess_event == -99) return;
         const Node &n = *w.nodes[d.node];
         if (n.cfg.glue != GLUE_DARWIN) return;
+        struct Feed { FlowTable &f; const Delivery &d; const Mac &own; ~Feed() { f.frame(d, own, d.before.mapping_state, d.after.mapping_state); } } feed{ft[d.node], d, n.attr.mac};
         int got = d.after.last_sess_event;
         uint8_t op = d.buf[OFF_OP];
         w.note("c11_classified");
@@ -688,11 +725,7 @@ struct MonC11 : Monitor {
             size_t fits = d.len >= 36 ? (d.len - 36) / 6 : 0;
             uint16_t gen = be16(d.buf + 32), xid = be16(d.buf + OFF_SEQ);
             Mac src = mac_at(d.buf + OFF_RSRC);
-            bool changed = false;
-            for (int i = 0; i < 16; i++) {
-                const glue_entry_view &e = d.before.ent[i];
-                if (e.valid && memcmp(e.mac, src.a, 6) == 0 && e.gen == gen && e.seq != xid) changed = true;
-            }
+            bool changed = ft[d.node].known_other_seq(src, gen, xid); // from the model of the flow's table, not from the implementation's
             size_t scan = std::min(count, fits);
             int pos = -1;
             for (size_t i = 0; i < scan; i++) if (mac_at(d.buf + 36 + 6 * i) == n.attr.mac) { pos = (int)i; break; }
@@ -718,6 +751,7 @@ struct MonC12 : Monitor {
     // (frame level: any received frame; API level: mapping_reset_inactive_timeout) and when a session was last added
     std::map<int, uint64_t> traffic_s, added_s;
     std::map<int, bool> have_traffic;
+    std::map<int, FlowTable> ft; // frame level: the sessions the documented flow must be holding
     const char *prop() const override { return "C12"; }
     void check(World &w, int node, const std::vector<TxRec> &txs, const glue_view &after) {
         int n = 0;
@@ -737,6 +771,11 @@ struct MonC12 : Monitor {
             for (int i = 0; i < 16; i++) if (after.ent[i].valid) { live++; if (!after.ent[i].complete) incomplete++; }
             if (live == 0) w.violate("C12", "hello-with-empty-table", fmt("periodic Hello at t=%llu while the session table is empty", (unsigned long long)tx.t));
             else if (incomplete == 0) w.violate("C12", "hello-all-complete", "periodic Hello while every session is complete");
+            if (!w.plan.api_world && ft.count(node)) { // the same clause judged on the reference table of the flow
+                const FlowTable &f = ft[node];
+                if (f.m.empty()) w.violate("C12", "hello-with-empty-table", fmt("periodic Hello at t=%llu although every session has been reset, expired or dropped (reference table of the flow is empty)", (unsigned long long)tx.t));
+                else if (f.incomplete_possible() == 0) w.violate("C12", "hello-all-complete", fmt("periodic Hello at t=%llu although every session the flow holds has been acknowledged", (unsigned long long)tx.t));
+            }
             auto it = last.find(node);
             if (it != last.end()) {
                 if (tx.t - it->second < 1000) w.violate("C12", "hello-too-soon", fmt("periodic Hellos %llu ms apart on one interface (t=%llu)", (unsigned long long)(tx.t - it->second), (unsigned long long)tx.t));
@@ -750,6 +789,7 @@ struct MonC12 : Monitor {
         if (d.ran && w.nodes[d.node]->cfg.glue == GLUE_DARWIN) { // the documented flow re-arms the inactivity deadline on every frame
             traffic_s[d.node] = d.t / 1000; have_traffic[d.node] = true;
             if (d.buf[OFF_OP] == W_DISCOVER) added_s[d.node] = d.t / 1000;
+            ft[d.node].frame(d, w.nodes[d.node]->attr.mac, d.before.mapping_state, d.after.mapping_state);
         }
         check(w, d.node, d.txs, d.after);
     }
@@ -758,6 +798,7 @@ struct MonC12 : Monitor {
         if (op.kind == OP_A_TADD) added_s[0] = w.now / 1000;
     }
     void on_tick(World &w, TickRec &t) override {
+        if (!w.plan.api_world && ft.count(t.node)) ft[t.node].tick(t.t / 1000);
         check(w, t.node, t.txs, t.after);
         // API level: once the deadline has fired it is disarmed until the next mapping_reset_inactive_timeout
         if (w.plan.api_world && have_traffic[t.node] && t.t / 1000 >= traffic_s[t.node] + 31) have_traffic[t.node] = false;
@@ -801,34 +842,40 @@ struct MonC13 : Monitor {
         }
         if (formula_applies) last = {true, b.band_Ni, 1, (uint32_t)std::min<uint64_t>(r, 0xFFFFFFFFull), interval}; else last.have = false;
     }
+    // model-side "enumeration has begun": we sent a periodic Hello, or heard GAMMA (10) Hellos in one block, or a Discover arrived
+    // while already enumerating; cleared when an enumeration (re)starts from Quiescent
+    std::map<int, bool> bm;
     void on_tick(World &w, TickRec &t) override {
         if (!t.before.have_band) return;
-        if (t.after.band_block_ts != t.before.band_block_ts && t.after.band_block_ts != 0 && t.before.band_block_ts != 0) {
-            bool sent = false;
-            for (auto &tx : t.txs) if (tx.channel == 1) sent = true;
-            block_end(w, t.node, t.t, t.before, t.after, t.before.band_begun || sent, w.plan.api_world);
-        }
+        bool sent = false;
+        for (auto &tx : t.txs) if (tx.channel == 1) sent = true;
+        if (sent) bm[t.node] = true;
+        if (t.after.band_block_ts != t.before.band_block_ts && t.after.band_block_ts != 0 && t.before.band_block_ts != 0)
+            block_end(w, t.node, t.t, t.before, t.after, bm[t.node], w.plan.api_world);
+        if (t.after.enum_state == 0) bm[t.node] = false;
     }
     void on_delivery(World &w, Delivery &d) override {
         if (!d.ran || !d.before.have_band || w.nodes[d.node]->cfg.glue != GLUE_DARWIN) return;
         uint8_t op = d.buf[OFF_OP];
-        if (op == W_HELLO) rm[d.node]++;                                       // heard in the current block
-        if (op == W_DISCOVER && d.before.enum_state == 0) rm[d.node] = 0;       // a new enumeration (and its first block) starts with this frame
+        bool restart = op == W_DISCOVER && d.before.enum_state == 0;
+        if (op == W_HELLO) { rm[d.node]++; if (rm[d.node] >= 10) bm[d.node] = true; } // heard in the current block
+        if (restart) { rm[d.node] = 0; bm[d.node] = false; }                            // a new enumeration (and its first block) starts with this frame
+        else if (op == W_DISCOVER) bm[d.node] = true;                                   // a Discover during an enumeration marks it begun
+        bool sent = false;
+        for (auto &tx : d.txs) if (tx.channel == 1) sent = true;
+        if (sent) bm[d.node] = true;
         // the tick that follows every frame in the Darwin flow can end a block
-        if (d.after.band_block_ts != d.before.band_block_ts && d.after.band_block_ts != 0 && d.before.band_block_ts != 0 && !(op == W_DISCOVER && d.before.enum_state == 0)) {
-            bool begun = d.before.band_begun;
-            if (op == W_HELLO && rm[d.node] >= 10) begun = true;
-            if (op == W_DISCOVER) begun = true; // a Discover during an enumeration marks it begun
-            bool sent = false;
-            for (auto &tx : d.txs) if (tx.channel == 1) sent = true;
-            block_end(w, d.node, d.after.band_block_ts - 300, d.before, d.after, begun || sent, false);
-        }
+        if (d.after.band_block_ts != d.before.band_block_ts && d.after.band_block_ts != 0 && d.before.band_block_ts != 0 && !restart)
+            block_end(w, d.node, d.after.band_block_ts - 300, d.before, d.after, bm[d.node], false);
+        if (d.after.enum_state == 0) bm[d.node] = false;
     }
     void on_api(World &w, int, const Op &op, const glue_view &b, const glue_view &a, int64_t) override {
-        if (op.kind == OP_A_HEARD) rm[0] += (uint64_t)op.a[0];
-        else if (op.kind == OP_A_SETR) rm[0] = (uint64_t)op.a[0];
-        else if (op.kind == OP_A_DISCBOOK && b.enum_state == 0) rm[0] = 0;
-        else if (op.kind == OP_A_BLOCKEND) block_end(w, 0, w.now, b, a, b.band_begun != 0, true);
+        if (op.kind == OP_A_HEARD) { rm[0] += (uint64_t)op.a[0]; if (rm[0] >= 10) bm[0] = true; }
+        else if (op.kind == OP_A_SETR) { rm[0] = (uint64_t)op.a[0]; if (rm[0] >= 10) bm[0] = true; }
+        else if (op.kind == OP_A_BANDSET) bm[0] = op.a[1] != 0;
+        else if (op.kind == OP_A_DISCBOOK) { if (b.enum_state == 0) { rm[0] = 0; bm[0] = false; } else bm[0] = true; }
+        else if (op.kind == OP_A_BLOCKEND) block_end(w, 0, w.now, b, a, bm[0], true);
+        if (op.kind != OP_A_TICK && op.kind != OP_A_ADV && a.have_enum && a.enum_state == 0 && b.enum_state != 0) bm[0] = false;
     }
 };
 
@@ -881,8 +928,10 @@ struct MonC14 : Monitor {
         if (inact_dirty[node]) return;
         if (idle >= 31) {
             w.note("c14_inactive_tick");
-            if (a.mapping_state != 0 || a.ctc != 0 || a.table_count != 0)
-                w.violate("C14", "inactivity-tick", fmt("%llu s without a frame: after the tick state=%d charge=%d sessions=%d", (unsigned long long)idle, a.mapping_state, a.ctc, a.table_count));
+            int live = 0;
+            for (int i = 0; i < 16; i++) if (a.ent[i].valid) live++;
+            if (a.mapping_state != 0 || a.ctc != 0 || a.table_count != 0 || live != 0)
+                w.violate("C14", "inactivity-tick", fmt("%llu s without a frame: after the tick state=%d charge=%d session count=%d live session entries=%d", (unsigned long long)idle, a.mapping_state, a.ctc, a.table_count, live));
         } else if (idle < 29) {
             if (a.mapping_state != b.mapping_state) w.violate("C14", "premature-inactivity", fmt("tick changed the mapping state %d -> %d only %llu s after the last frame", b.mapping_state, a.mapping_state, (unsigned long long)idle));
             bool old = false;
@@ -1043,10 +1092,27 @@ struct MonC16 : Monitor {
         w.cell(16, ((uint64_t)op.kind << 4) | (uint64_t)(model.size() == 0 ? 0 : model.size() < 8 ? 1 : model.size() < 16 ? 2 : 3));
         compare(w, a, op_name(op.kind));
     }
-    void on_delivery(World &w, Delivery &d) override { if (d.after.have_table) { invariants(w, d.after, "after frame"); w.note("c16_passive_invariant"); } }
+    std::map<int, FlowTable> ft;
+    void flow_compare(World &w, int node, const glue_view &v, const char *ctx) {
+        const FlowTable &f = ft[node];
+        int live = 0;
+        for (int i = 0; i < 16; i++) if (v.ent[i].valid) {
+            live++;
+            Mac m; memcpy(m.a, v.ent[i].mac, 6);
+            if (!f.m.count({m, v.ent[i].gen})) { w.violate("C16", "phantom-session", std::string(ctx) + ": the table holds a session of mapper " + m.str() + " that was reset, expired or dropped"); return; }
+        }
+        if ((size_t)live != f.m.size()) w.violate("C16", "lost-session", fmt("%s: the table holds %d live sessions, the frames received imply %zu", ctx, live, f.m.size()));
+        w.note("c16_flow_table_compared");
+    }
+    void on_delivery(World &w, Delivery &d) override {
+        if (!d.after.have_table) return;
+        invariants(w, d.after, "after frame"); w.note("c16_passive_invariant");
+        if (d.ran && w.nodes[d.node]->cfg.glue == GLUE_DARWIN) { ft[d.node].frame(d, w.nodes[d.node]->attr.mac, d.before.mapping_state, d.after.mapping_state); flow_compare(w, d.node, d.after, "after frame"); }
+    }
     void on_tick(World &w, TickRec &t) override {
         if (!w.plan.api_world && t.after.have_table) {
             invariants(w, t.after, "after tick");
+            if (ft.count(t.node)) { ft[t.node].tick(t.t / 1000); flow_compare(w, t.node, t.after, "after tick"); }
             // expiry rule, passively: sessions idle > 60 s are gone, fresher ones survive unless the 30 s mapping inactivity cleared the table
             for (int i = 0; i < 16; i++) if (t.before.ent[i].valid) {
                 bool idle = t.t / 1000 > t.before.ent[i].last_ts + 60;
